@@ -9,7 +9,7 @@ import json
 import random
 from fractions import Fraction as F
 
-from . import core, oracle, rules, ruleprops
+from . import core, oracle, rulegen, rules, ruleprops
 from .core import Case
 from .ruleprops import violation
 
@@ -132,3 +132,268 @@ def replay(payload):
     if rule != "maxw" and a != b:
         return False, f"still differs from a fresh satisfaction profile: {a} vs {b}"
     return True, "reused and fresh satisfaction profiles agree"
+
+
+# ----------------------------------------------------------------------------------------------
+# ONE long-lived approval profile object (Profile or MultiProfile) handed to a rule, mutated in place through the
+# public list / Counter API (late voters, withdrawn voters, replaced or edited ballots, changed multiplicities) and handed
+# to the rule again.  Every call must return what the definition prescribes for the voters present at that moment:
+# anything remembered on the profile (or on its ballots) from an earlier call shows up here.  Used by C05.
+
+PROFILE_OPS = ["append", "extend", "iadd", "insert", "set", "del", "edit", "swap_one"]
+MULTI_OPS = ["append", "extend", "extend_mutable", "addmult", "setmult", "delballot", "update"]
+
+
+def _akey(b):
+    return tuple(sorted(b))
+
+
+def gen_profile_op(rng, names, raw, multi):
+    """one in-place mutation of the profile, as a JSON-able list; `raw` is the current voter list (lists of names)"""
+    def newb():
+        b = [x for x in names if rng.random() < 0.5]
+        if not b and names and rng.random() < 0.8:
+            b = [rng.choice(names)]
+        rng.shuffle(b)
+        return b
+
+    def some():
+        # late voters often share one ballot: that is what moves supporter counts most
+        k = rng.randint(1, 4)
+        if rng.random() < 0.5:
+            b = newb()
+            return [list(b) for _ in range(k)]
+        return [newb() for _ in range(k)]
+
+    for _ in range(20):
+        op = rng.choice(MULTI_OPS if multi else PROFILE_OPS)
+        if op == "append":
+            return ["append", newb()]
+        if op in ("extend", "iadd", "extend_mutable"):
+            return [op, some()]
+        if op == "update":
+            return ["update", [[b, rng.randint(1, 3)] for b in some()]]
+        if not raw:
+            continue
+        if op == "insert":
+            return ["insert", rng.randint(0, len(raw)), newb()]
+        if op in ("set", "edit"):
+            return [op, rng.randrange(len(raw)), newb()]
+        if op == "swap_one":
+            # a voter replaces one approved project by another one: the ballot keeps its size
+            i = rng.randrange(len(raw))
+            ins = sorted(raw[i])
+            outs = [x for x in names if x not in raw[i]]
+            if ins and outs:
+                return ["swap_one", i, rng.choice(ins), rng.choice(outs)]
+            continue
+        if op == "del":
+            if len(raw) >= 2:
+                return ["del", rng.randrange(len(raw))]
+            continue
+        if op == "addmult":
+            return ["addmult", list(rng.choice(raw)), rng.randint(1, 3)]
+        if op == "setmult":
+            return ["setmult", list(rng.choice(raw)), rng.randint(1, 4)]
+        if op == "delballot":
+            b = rng.choice(raw)
+            if any(_akey(x) != _akey(b) for x in raw):
+                return ["delballot", list(b)]
+    return ["append", newb()]
+
+
+def voters_after(raw, op):
+    """the voter list after `op`: the independent half of the history (plain lists of names, no library object)"""
+    kind = op[0]
+    raw = [list(b) for b in raw]
+    if kind == "append":
+        return raw + [list(op[1])]
+    if kind in ("extend", "iadd", "extend_mutable"):
+        return raw + [list(b) for b in op[1]]
+    if kind == "update":
+        return raw + [list(b) for b, k in op[1] for _ in range(k)]
+    if kind == "insert":
+        raw.insert(op[1], list(op[2]))
+        return raw
+    if kind in ("set", "edit"):
+        raw[op[1]] = list(op[2])
+        return raw
+    if kind == "swap_one":
+        if op[2] not in raw[op[1]] or op[3] in raw[op[1]]:
+            raise ValueError(op)
+        raw[op[1]] = [x for x in raw[op[1]] if x != op[2]] + [op[3]]
+        return raw
+    if kind == "del":
+        del raw[op[1]]
+        return raw
+    if kind == "addmult":
+        return raw + [list(op[1]) for _ in range(op[2])]
+    if kind == "setmult":
+        return [b for b in raw if _akey(b) != _akey(op[1])] + [list(op[1]) for _ in range(op[2])]
+    if kind == "delballot":
+        return [b for b in raw if _akey(b) != _akey(op[1])]
+    raise ValueError(op)
+
+
+def apply_profile_op(prof, op, projs, multi):
+    """apply `op` to the real profile object through its public mutators; returns the profile object the caller goes on with"""
+    import pabutools.election as e
+
+    def mut(b):
+        return e.ApprovalBallot([projs[x] for x in b])
+
+    def fro(b):
+        return e.FrozenApprovalBallot([projs[x] for x in b])
+
+    kind = op[0]
+    if not multi:
+        if kind == "append":
+            prof.append(mut(op[1]))
+        elif kind == "extend":
+            prof.extend([mut(b) for b in op[1]])
+        elif kind == "iadd":
+            prof += [mut(b) for b in op[1]]
+        elif kind == "insert":
+            prof.insert(op[1], mut(op[2]))
+        elif kind == "set":
+            prof[op[1]] = mut(op[2])
+        elif kind == "del":
+            del prof[op[1]]
+        elif kind == "edit":
+            b = prof[op[1]]
+            b.clear()
+            b.update(projs[x] for x in op[2])
+        elif kind == "swap_one":
+            b = prof[op[1]]
+            b.remove(projs[op[2]])
+            b.add(projs[op[3]])
+        else:
+            raise ValueError(op)
+        return prof
+    if kind == "append":
+        prof.append(fro(op[1]))
+    elif kind == "extend":
+        prof.extend([fro(b) for b in op[1]])
+    elif kind == "extend_mutable":
+        prof.extend([mut(b) for b in op[1]])
+    elif kind == "update":
+        if len({_akey(b) for b, _ in op[1]}) == len(op[1]):
+            prof.update({fro(b): k for b, k in op[1]})
+        else:
+            prof.update([fro(b) for b, k in op[1] for _ in range(k)])
+    elif kind == "addmult":
+        prof[fro(op[1])] += op[2]
+    elif kind == "setmult":
+        prof[fro(op[1])] = op[2]
+    elif kind == "delballot":
+        del prof[fro(op[1])]
+    else:
+        raise ValueError(op)
+    return prof
+
+
+class LiveBuilt(rules.Built):
+    """the real objects of a history: the profile is the long-lived, mutated one; the case describes the voters present now"""
+
+    def __init__(self, case, inst, projs, prof, multi):  # Built.__init__ is not called on purpose: nothing is rebuilt
+        self.case, self.inst, self.projs, self.prof, self.multi = case, inst, projs, prof, multi
+
+
+def check_live(case, prof):
+    """harness sanity (not a property): the live profile object holds exactly the voters of the independent voter list"""
+    from collections import Counter
+
+    want = Counter(_akey(b) for b in case.ballots)
+    got = Counter()
+    for b in prof:
+        got[_akey(p.name for p in b)] += prof.multiplicity(b)
+    if want != got:
+        raise AssertionError(f"harness: live profile {dict(got)} and voter list {dict(want)} diverged")
+
+
+def gen_profile_history(rng, rule_cfg):
+    """(initial case, multi, steps): steps[k] = {"ops": [...], "cfg": configuration of call k}; step 0 has no ops.
+    rule_cfg(rng, case_now, multi) draws the configuration of one call for the voters present at that step."""
+    case = core.gen_election(rng, btypes=("app",), m_lo=2, m_hi=5, n_hi=5)
+    names = [n for n, _ in case.projects]
+    multi = rng.random() < 0.5
+    raw = [list(b) for b in case.ballots]
+    steps = []
+    for k in range(rng.choice([2, 2, 3, 4])):
+        ops = []
+        if k > 0:
+            for _ in range(rng.choice([1, 1, 2, 3])):
+                op = gen_profile_op(rng, names, raw, multi)
+                ops.append(op)
+                raw = voters_after(raw, op)
+        cur = Case(case.projects, case.budget, "app", [list(b) for b in raw], case.seed)
+        steps.append({"ops": ops, "cfg": rule_cfg(rng, cur, multi)})
+    return case, multi, steps
+
+
+def play_profile_history(case, multi, steps, predicate, upto=None):
+    """run the history on ONE profile object; yields (step index, case now, item, violations of `predicate`) per call"""
+    inst, projs = core.build_instance(case)
+    prof = core.build_profile(case, inst, projs, multi=multi)
+    raw = [list(b) for b in case.ballots]
+    for k, st in enumerate(steps):
+        if upto is not None and k > upto:
+            return
+        for op in st["ops"]:
+            raw = voters_after(raw, op)
+            prof = apply_profile_op(prof, op, projs, multi)
+        cur = Case(case.projects, case.budget, "app", [list(b) for b in raw], case.seed)
+        check_live(cur, prof)
+        built = LiveBuilt(cur, inst, projs, prof, multi)
+        cfg = dict(st["cfg"], multi=multi)
+        rulegen.fix_loads(cfg, built)
+        ans, rawans = rules.impl_answer(built, cfg)
+        it = ruleprops.Item(cur, cfg, built, ans, rawans, None)
+        yield k, cur, it, predicate(it)
+
+
+def _history_json(multi, steps):
+    return {"kind": "profile mutated in place between calls", "multi": multi,
+            "steps": [{"ops": st["ops"], "cfg": ruleprops.cfg_json({k: v for k, v in st["cfg"].items() if k not in ("loads", "loads_expanded")})} for st in steps]}
+
+
+def run_profile_history(ctx, n, predicate, rule_cfg):
+    """n histories; every call of every history is judged by the property's own `predicate` on the voters present"""
+    rng = ctx.rng
+    for _ in range(n):
+        if ctx.budget_s is not None and ctx.elapsed() > ctx.budget_s:
+            break
+        case, multi, steps = gen_profile_history(rng, rule_cfg)
+        hist = _history_json(multi, steps)
+        outs = []
+        for k, cur, it, vs in play_profile_history(case, multi, steps, predicate):
+            ctx.evaluations += 1
+            ctx.count("profile_history_calls", "MultiProfile" if multi else "Profile")
+            for op in steps[k]["ops"]:
+                ctx.count("profile_history_ops", op[0])
+            outs.append(rules.canon(it.ans))
+            for v in vs:
+                # stored so that the replay re-runs the whole history from the initial election
+                v = dict(v)
+                v["what"] = f"call {k + 1} of a history on one profile object mutated in place: " + v["what"]
+                v["current_case"] = v["case"]
+                v["case"] = case.to_json()
+                v["cfg"] = dict(v["cfg"], profile_history=hist, step=k)
+                v["sig"] = dict(v.get("sig") or {}, history="profile_mutated_in_place")
+                ctx.violations.append(v)
+        if len(set(outs)) >= 2:
+            ctx.nontrivial.add("profhist" + case.key() + json.dumps(hist, sort_keys=True, default=str))
+
+
+def replay_profile_history(payload, predicate):
+    """re-run a stored history from its initial election up to the failing call"""
+    case = Case.from_json(payload["case"])
+    hist = payload["cfg"]["profile_history"]
+    upto = payload["cfg"].get("step")
+    steps = [{"ops": st["ops"], "cfg": ruleprops.cfg_from_json(st["cfg"])} for st in hist["steps"]]
+    last = None
+    for k, cur, it, vs in play_profile_history(case, hist["multi"], steps, predicate, upto=upto):
+        last = rules.canon(it.ans)
+        if vs and (upto is None or k == upto):
+            return False, f"still fails at call {k + 1}: " + vs[0]["what"]
+    return True, f"every call of the history returns what the definition prescribes (last: {last})"
